@@ -578,6 +578,20 @@ def _task_live(task):
                         size=before + after)
         finally:
             rotate_cookie(COOKIE)
+    # the application reconfigures the mechanism list while a handshake is in
+    # flight
+    for edit in ('none', 'remove-first', 'last-to-front', 'reverse',
+                 'clear-and-refill'):
+        for unix in (False, True):
+            res.count('states')
+            res.count('transitions', 5)
+            res.count('evaluations')
+            res.count('traces')
+            res.count('nontrivial')
+            for t_, w_ in run_reconfigured(edit, unix):
+                res.violation('%s/%s' % (PROP, t_), w_,
+                              {'part': 'reconfigured', 'edit': edit,
+                               'unix': unix}, size=3)
     # a server whose cookie challenge names an id the client's keyring does
     # not hold: the client must abandon the mechanism properly and complete
     # with the next one the server accepts
@@ -610,6 +624,68 @@ def _task_live(task):
                                      (b'DBUS_COOKIE_SHA1',), b'ERROR', False,
                                      True)[1]]})
     return res
+
+
+def run_reconfigured(edit, unix):
+    """connection A is in the middle of its handshake when the application
+    edits the class-level preference list in place to configure the next
+    connection (and puts it back afterwards); the server refuses everything.
+    A still offers no mechanism twice and offers every mechanism that was in
+    the list both before and after the edit, then closes"""
+    from txdbus import authentication as A
+    viol = []
+    pref = A.ClientAuthenticator.preference
+    saved = list(pref)
+    try:
+        p, t = make_client(unix)
+        offered = []
+
+        def take():
+            for kind, line in client_lines(t.take()):
+                line = line.lstrip(b'\0')
+                if kind == 'line' and line.startswith(b'AUTH '):
+                    offered.append(line.split()[1])
+        take()
+        if edit == 'remove-first':
+            pref.remove(saved[0])
+        elif edit == 'last-to-front':
+            pref.remove(saved[-1])
+            pref.insert(0, saved[-1])
+        elif edit == 'reverse':
+            pref.reverse()
+        elif edit == 'clear-and-refill':
+            del pref[:]
+            pref.extend(saved)
+        kept = [m for m in saved if m in pref]
+        for _ in range(8):
+            if t.disconnecting:
+                break
+            p.dataReceived(b'REJECTED ' + b' '.join(saved) + b'\r\n')
+            take()
+        if len(set(offered)) != len(offered):
+            viol.append(('reconfigured/%s/offered-twice' % edit,
+                         'preference list %r edited in place (%s) while a '
+                         'handshake was waiting for the answer to its first '
+                         'AUTH; the server refusing everything, the '
+                         'connection offered %r' % (saved, edit, offered)))
+        missing = [m for m in kept if m not in offered]
+        if missing:
+            viol.append(('reconfigured/%s/skipped' % edit,
+                         'preference list %r edited in place (%s, now %r) '
+                         'while a handshake was waiting for the answer to '
+                         'its first AUTH: the connection offered %r and '
+                         'never %r' % (saved, edit, list(pref), offered,
+                                       missing)))
+        if not t.disconnecting:
+            viol.append(('reconfigured/%s/not-closed' % edit,
+                         'every mechanism refused, the connection is still '
+                         'open; offered %r' % (offered,)))
+    except Exception as e:
+        viol.append(('reconfigured/%s/raises-%s' % (edit, type(e).__name__),
+                     '%r' % (e,)))
+    finally:
+        pref[:] = saved
+    return viol
 
 
 def _client_transcript(unix, lines, mode):
@@ -720,6 +796,9 @@ def replay(data):
         res = _task_live(True)
         return [(s, v['what']) for s, v in res.violations.items()
                 if 'rotated' in s]
+    if data.get('part') == 'reconfigured':
+        return [('%s/%s' % (PROP, t), w) for t, w in
+                run_reconfigured(data['edit'], data['unix'])]
     if data.get('part') == 'live-busy':
         try:
             rotate_cookie(b'busy5ecret', data['before'], data['after'])
